@@ -273,7 +273,7 @@ package nflog
 //@   ensures [records-group] result == nil && q.groupKey == deref(gk) && q.recv == old(q.recv)
 //@   assigns q.groupKey
 //@ func (*Log).Query$1
-//@   props C04 C10
+//@   props C04 C10 C05
 //@   ensures [monitor-lock-released] count("RWMutex).RLock") == count("RWMutex).RUnlock") && count("RWMutex).RLock") <= 1
 //@   at call nflog.stateKey assert [monitor-lock-held] count("RWMutex).RLock") == 1 && count("RWMutex).RUnlock") == 0
 //@   nosafe
@@ -285,7 +285,7 @@ package nflog
 //@   loop 1 invariant rangeindex < len(deref(params)) && count("dynamic:elem:freevar:params") == rangeindex + 1 && (called("dynamic:elem:freevar:params") ==> ret("dynamic:elem:freevar:params") == nil) && !called("nflog.stateKey")
 //@   freshonly dynamic:elem:freevar:params
 //@ func (*Log).Query
-//@   props C04 C10
+//@   props C04 C10 C05
 //@   nosafe
 //@   ensures [answer-of-the-lookup] called("Query$1") && result0 == ret("Query$1") && result1 == ret1("Query$1")
 
